@@ -61,7 +61,7 @@ Definition repo_arith : arith := ArithWrap.
    accepted and its value stays uninitialised; a reference to a val whose value has not been set reads that
    uninitialised int.  (true = the repaired source: `std::optional<int> exprValue`; NonConstValError thrown at the
    declaration and at a call through a val that has no value yet; a plain reference to such a val is not constant) *)
-Definition repo_rejects_nonconst_val : bool := false.
+Definition repo_rejects_nonconst_val : bool := true.
 (* a reference to a ValDecl whose value has not been set: as a name in an expression / as the name of a call *)
 Definition unset_val_call {A : Type} (f : string) : cres A :=
   if repo_rejects_nonconst_val then CErr (NonConstVal f) else CUB (UninitValRead f).
